@@ -17,7 +17,7 @@ var c14Sigma = []string{"a", "b", "é", "あ", "😀", "́", "\n"}
 var c14Regexes = []string{
 	"a", "b", "é", "あ", "😀", "ab", "a.", ".", "..", "[ab]", "[^a]", "[é😀]", "\\p{Han}?", "^", "$", "^a", "a$", "^$", "a*", "b?", "(a|b)*", "()", "", "a*?", ".*?", ".*", "\\n?", "(a)", "(a)(b)?", "(?<x>a)", "(?<x>a)|(?<y>b)",
 	"((a)b)", "(a|(b))", "(?<all>(?<head>a)b*)", "(é)|(あ)", "(.)(.)", "((é)x?)", "a|b|é", "[a-b]+", "\\w", "\\W", "\\s", "\\S+", "́", "á", "(?i)A", "A", "É", "(?<n>.)\\n", "^.", ".$", "(?:a)", "\\b", "\\Ba",
-	"(a*)*", "(a?)+", "x*", "(x)?", "ai", "ag", "am", "agi", "a\\n", ".\\n.", "a|", "|a", "(", "[", "a{2}", "a{1,2}", "(a){2}",
+	"(a*)*", "(a?)+", "x*", "(x)?", "(?:(b)|(a))+", "((a)|(b))+", "(?:(é)|(a)|(b))+", "(?:(?<p>b)|(?<q>.))*", "((.)|(a))+?b", "(?:(a)|(b)|(é))+$", "(?:(.)(a)?)+", "(a)?(b)?(é)?(a)?", "ai", "ag", "am", "agi", "a\\n", ".\\n.", "a|", "|a", "(", "[", "a{2}", "a{1,2}", "(a){2}",
 }
 
 var c14Flags = []any{nil, "g", "i", "gi", "m", "gm", "", "x", "gx", "ig"}
